@@ -20,7 +20,8 @@ for pid in sorted(os.listdir(inc)):
         wt = tempfile.mkdtemp(prefix='wtc_')
         os.rmdir(wt)
         subprocess.check_call(['git', '-C', '/repo', 'worktree', 'add', '-q', '--detach', wt, 'HEAD'])
-        rec = {'id': f'{pid}-{m}', 'property': pid}
+        prop = pid[-3:]
+        rec = {'id': f'{pid}-{m}', 'property': prop}
         try:
             env = {'PYTHONPATH': wt}
             shutil.copy(demo, os.path.join(wt, '_demo.py'))
@@ -44,7 +45,7 @@ for pid in sorted(os.listdir(inc)):
             meta = {}
             try: meta = json.load(open(os.path.join(mdir, 'meta.json')))
             except Exception: pass
-            meta.update({'breaks_property': pid, 'confirmed_on_repo_head': head,
+            meta.update({'breaks_property': prop, 'confirmed_on_repo_head': head,
                          'what_i_ran': 'fresh worktree of /repo HEAD: demo.py exit 0; git apply patch.diff; pytest 116 passed; demo.py exit %d' % rec['demo_mut_rc'],
                          'origin': 'independent sub-agent given only the property text and a scratch worktree'})
             json.dump(meta, open(os.path.join(d, 'meta.json'), 'w'), indent=1)
